@@ -21,12 +21,12 @@ func main() {
 	srv := daisen2.NewReplayServer(p, "")
 	pool := daisen2.VerifServerDB(srv)
 	bad := 0
-	for i := 0; i < 300; i++ {
+	for i := 0; i < 1500; i++ {
 		ctx, cancel := context.WithCancel(context.Background())
-		d := time.Duration(1+i%20) * time.Millisecond
+		d := time.Duration(20+i%20) * time.Millisecond
 		t := time.AfterFunc(d, cancel)
 		t0 := time.Now()
-		out := daisen2.VerifRunAgentTool(ctx, srv, "data_query", `{"sql":"WITH RECURSIVE c(x) AS (SELECT 1 UNION ALL SELECT x+1 FROM c WHERE x < 2000000000) SELECT COUNT(*) FROM c"}`)
+		out := daisen2.VerifRunAgentTool(ctx, srv, "data_query", `{"sql":"WITH RECURSIVE c(x) AS (SELECT 1 UNION ALL SELECT x+1 FROM c WHERE x < 300000000) SELECT COUNT(*) FROM c"}`)
 		if el := time.Since(t0); el > 500*time.Millisecond { fmt.Printf("iter %d delay %v took %v out=%q\n", i, d, el, out) }
 		t.Stop()
 		cancel()
